@@ -1,12 +1,81 @@
 /* C14 harness: shared / non-shared session policy on the real server code.
- * ops: cfg a n d | conn id rev | hs id | init id shared | close id | reap | state
+ * ops: cfg a n d | args tok.. | conn id rev | conn889 id rev | rconn id mode | hs id |
+ *      init id shared | close id | reap | state
  * One observation line per op (see Driver/C14.lean for the model side). */
+#ifndef _GNU_SOURCE
+#define _GNU_SOURCE
+#endif
 #include "sess.h"
+#include <dlfcn.h>
+#include <poll.h>
+#include <netinet/in.h>
+#include <netinet/tcp.h>
+#include <arpa/inet.h>
 
 #define MAXC 64
 static vh_conn conns[MAXC];
 static int used[MAXC], hsdone[MAXC], is889[MAXC];
 static rfbScreenInfoPtr scr;
+
+/* ---- the protocol extension whose command-line options the `args` op exercises (model: demoExt) */
+static int ext_arg(int argc, char *argv[]) {
+  if (argc >= 2 && !strcmp(argv[0], "-chan")) return 2;
+  if (argc >= 1 && !strcmp(argv[0], "-xflag")) return 1;
+  if (argc >= 3 && !strcmp(argv[0], "-tri")) return 3;
+  return 0;
+}
+static rfbProtocolExtension verif_ext;   /* all other methods NULL */
+
+/* ---- the listening viewer the real rfbReverseConnection connects to (loopback TCP).  connect() is
+ * interposed only to play the viewer's part at the right moment: accept and write the viewer's
+ * version string at once, so that rfbNewClient's WebSocket peek does not wait 100 ms. */
+static int listen_fd = -1, listen_port, dead_port, rc_armed, rc_accepted = -1, refuse_next;
+static void open_listener(void) {
+  struct sockaddr_in a; socklen_t l = sizeof a; int fd;
+  if (listen_fd >= 0) return;
+  memset(&a, 0, sizeof a); a.sin_family = AF_INET; a.sin_addr.s_addr = htonl(INADDR_LOOPBACK);
+  listen_fd = socket(AF_INET, SOCK_STREAM, 0);
+  if (listen_fd < 0 || bind(listen_fd, (struct sockaddr *)&a, sizeof a) < 0 || listen(listen_fd, 16) < 0 ||
+      getsockname(listen_fd, (struct sockaddr *)&a, &l) < 0) { perror("listener"); exit(2); }
+  listen_port = ntohs(a.sin_port);
+  memset(&a, 0, sizeof a); a.sin_family = AF_INET; a.sin_addr.s_addr = htonl(INADDR_LOOPBACK); l = sizeof a;
+  fd = socket(AF_INET, SOCK_STREAM, 0);
+  if (fd < 0 || bind(fd, (struct sockaddr *)&a, sizeof a) < 0 || getsockname(fd, (struct sockaddr *)&a, &l) < 0) { perror("deadport"); exit(2); }
+  dead_port = ntohs(a.sin_port);   /* bound, never listening, closed again: connections are refused */
+  close(fd);
+}
+int connect(int fd, const struct sockaddr *addr, socklen_t len) {
+  static int (*real)(int, const struct sockaddr *, socklen_t);
+  int r;
+  if (!real) real = (int (*)(int, const struct sockaddr *, socklen_t))dlsym(RTLD_NEXT, "connect");
+  r = real(fd, addr, len);
+  if (rc_armed && addr && addr->sa_family == AF_INET &&
+      ntohs(((const struct sockaddr_in *)addr)->sin_port) == listen_port) {
+    int e = errno;
+    if (r < 0 && (e == EINPROGRESS || e == EWOULDBLOCK)) {
+      struct pollfd pf; int soerr = 0; socklen_t sl = sizeof soerr;
+      pf.fd = fd; pf.events = POLLOUT;
+      if (poll(&pf, 1, 2000) == 1 && getsockopt(fd, SOL_SOCKET, SO_ERROR, &soerr, &sl) == 0 && soerr == 0) r = 0;
+      else { errno = soerr ? soerr : ETIMEDOUT; return -1; }
+    }
+    if (r == 0) {
+      rc_armed = 0;
+      rc_accepted = accept(listen_fd, NULL, NULL);
+      if (rc_accepted >= 0) {
+        int one = 1; ssize_t w;
+        fcntl(rc_accepted, F_SETFL, fcntl(rc_accepted, F_GETFL) | O_NONBLOCK);
+        setsockopt(rc_accepted, IPPROTO_TCP, TCP_NODELAY, &one, sizeof one);
+        w = write(rc_accepted, "RFB 003.008\n", 12); (void)w;
+      }
+    } else errno = e;
+  }
+  return r;
+}
+static enum rfbNewClientAction new_client_hook(rfbClientPtr cl) {
+  (void)cl;
+  if (refuse_next) { refuse_next = 0; return RFB_CLIENT_REFUSE; }
+  return RFB_CLIENT_ACCEPT;
+}
 
 static int live(int id) {
   return id >= 0 && id < MAXC && used[id] && conns[id].cl && conns[id].cl->sock != RFB_INVALID_SOCKET;
@@ -16,6 +85,9 @@ int main(void) {
   char *line, *tok[16];
   scr = vh_screen(16, 8, 4);
   if (!scr) { fprintf(stderr, "no screen\n"); return 2; }
+  scr->newClientHook = new_client_hook;
+  verif_ext.processArgument = ext_arg;
+  rfbRegisterProtocolExtension(&verif_ext);
   while ((line = vh_readline())) {
     int n = vh_split(line, tok, 16);
     if (n == 0 || tok[0][0] == '#') continue;
@@ -24,12 +96,16 @@ int main(void) {
       puts("ok");
     } else if (!strcmp(tok[0], "args") && n >= 1) {
       /* command-line configuration path: rfbProcessArguments (cargs.c) on the live screen */
-      char *argv[18]; int argc = n, i;
+      static char *pool[4096]; static int npool;      /* option values stay referenced by the screen */
+      char *argv[18]; int argc = n, i; rfbBool r;
+      if (n > 16 || npool + n > 4096) { puts("bad-op"); continue; }
       argv[0] = (char *)"verif";
-      for (i = 1; i < n && i < 17; i++) argv[i] = tok[i];
+      for (i = 1; i < n; i++) argv[i] = pool[npool++] = strdup(tok[i]);
       argv[argc] = NULL;
-      rfbProcessArguments(scr, &argc, argv);
-      puts("ok");
+      r = rfbProcessArguments(scr, &argc, argv);
+      fputs(r ? "ok" : "fail", stdout);
+      for (i = 1; i < argc; i++) printf(" %s", argv[i]);   /* what is left for the application */
+      putchar('\n');
     } else if ((!strcmp(tok[0], "conn") || !strcmp(tok[0], "conn889")) && n == 3) {
       int id = atoi(tok[1]);
       if (id < 0 || id >= MAXC || used[id]) { puts("bad-op"); continue; }
@@ -38,6 +114,34 @@ int main(void) {
       is889[id] = tok[0][4] == '8';
       vh_connect_pre(scr, &conns[id], is889[id] ? "RFB 003.889\n" : "RFB 003.008\n", 12);
       if (conns[id].cl && atoi(tok[2])) conns[id].cl->reverseConnection = TRUE; /* as rfbReverseConnection does */
+      puts("ok");
+    } else if (!strcmp(tok[0], "rconn") && n == 3) {
+      /* the REAL rfbReverseConnection.  mode 1: a viewer listens; 0: nobody listens (connection
+         refused); 2: the connection is made but the application's newClientHook refuses it */
+      int id = atoi(tok[1]), mode = atoi(tok[2]); rfbClientPtr cl;
+      if (id < 0 || id >= MAXC || used[id] || mode < 0 || mode > 2) { puts("bad-op"); continue; }
+      open_listener();
+      if (mode == 0) {
+        cl = rfbReverseConnection(scr, (char *)"127.0.0.1", dead_port);
+        if (cl) { fprintf(stderr, "reverse connection to a closed port succeeded\n"); return 2; }
+        puts("rc-failed");
+        continue;
+      }
+      rc_armed = 1; rc_accepted = -1; refuse_next = (mode == 2);
+      cl = rfbReverseConnection(scr, (char *)"127.0.0.1", listen_port);
+      rc_armed = 0; refuse_next = 0;
+      if (rc_accepted < 0) { fprintf(stderr, "the listening viewer was not reached\n"); return 2; }
+      if (mode == 2) {
+        if (cl) { fprintf(stderr, "refused reverse connection returned a client\n"); return 2; }
+        close(rc_accepted);
+        puts("rc-failed");
+        continue;
+      }
+      if (!cl) { fprintf(stderr, "reverse connection to the listening viewer failed\n"); return 2; }
+      used[id] = 1; is889[id] = 0;
+      memset(&conns[id], 0, sizeof conns[id]);
+      conns[id].cl = cl; conns[id].peer = rc_accepted; conns[id].srvfd = cl->sock;
+      cl->clientData = &conns[id]; cl->clientGoneHook = vh_gone_hook;
       puts("ok");
     } else if (!strcmp(tok[0], "hs") && n == 2) {
       int id = atoi(tok[1]); unsigned char one = 1;
@@ -71,8 +175,9 @@ int main(void) {
         if (!first) putchar(' ');
         first = 0;
         if (!conns[id].cl) printf("%d:gone", id);
-        else printf("%d:%s:%s", id, conns[id].cl->sock != RFB_INVALID_SOCKET ? "open" : "closed",
-                    conns[id].cl->state == RFB_NORMAL ? "normal" : "hs");
+        else printf("%d:%s:%s:%s", id, conns[id].cl->sock != RFB_INVALID_SOCKET ? "open" : "closed",
+                    conns[id].cl->state == RFB_NORMAL ? "normal" : "hs",
+                    conns[id].cl->reverseConnection ? "r" : "i");
       }
       putchar('\n');
     } else puts("bad-op");
